@@ -186,36 +186,39 @@ def run_C01(ctx):
     # (3) value pools: every float/int/string boundary in one tree, all 64 output-option combinations in the thorough tier
     rec = []
     def fn3(impl, rng, stats):
-        impl.do('init')
-        impl.do('add / %s 1' % hexs(b'g'))
-        i = 0
-        for b in gen_api.DBL_POOL:
-            if (b >> 52) & 0x7ff == 0x7ff:
-                continue
-            impl.do('add /0 %s 4' % hexs(b'f%d' % i)); impl.do('set_float /0/%d %016x' % (i, b)); i += 1
-        for v in gen_api.INT64_POOL:
-            if -2**31 <= v < 2**31:
-                impl.do('add /0 %s 2' % hexs(b'i%d' % i)); impl.do('set_int /0/%d %d' % (i, v))
-            else:
-                impl.do('add /0 %s 3' % hexs(b'i%d' % i)); impl.do('set_int64 /0/%d %d' % (i, v))
-            if i % 2:
-                impl.do('set_format /0/%d 1' % i)
-            i += 1
-        for ln in (0, 1, 63, 64, 65, 127, 128, 129, 1000):
-            impl.do('add /0 %s 5' % hexs(b's%d' % i)); impl.do('set_string /0/%d %s' % (i, hexs(bytes((j * 7 + ln) % 255 + 1 for j in range(ln))))); i += 1
-        impl.do('add /0 %s 5' % hexs(b'snull'))
-        impl.do('add / %s 8' % hexs(b'l'))
-        for j in range(40):
-            impl.do('set_int_elem /1 -1 %d' % j)
-        combos = range(64) if ctx['tier'] == 'thorough' else [rng.below(64) for _ in range(8)]
+        def build():
+            impl.do('init')
+            impl.do('add / %s 1' % hexs(b'g'))
+            i = 0
+            for b in gen_api.DBL_POOL:
+                if (b >> 52) & 0x7ff == 0x7ff:
+                    continue
+                impl.do('add /0 %s 4' % hexs(b'f%d' % i)); impl.do('set_float /0/%d %016x' % (i, b)); i += 1
+            for v in gen_api.INT64_POOL:
+                if -2**31 <= v < 2**31:
+                    impl.do('add /0 %s 2' % hexs(b'i%d' % i)); impl.do('set_int /0/%d %d' % (i, v))
+                else:
+                    impl.do('add /0 %s 3' % hexs(b'i%d' % i)); impl.do('set_int64 /0/%d %d' % (i, v))
+                if i % 2:
+                    impl.do('set_format /0/%d 1' % i)
+                i += 1
+            for ln in (0, 1, 63, 64, 65, 127, 128, 129, 1000):
+                impl.do('add /0 %s 5' % hexs(b's%d' % i)); impl.do('set_string /0/%d %s' % (i, hexs(bytes((j * 7 + ln) % 255 + 1 for j in range(ln))))); i += 1
+            impl.do('add /0 %s 5' % hexs(b'snull'))
+            impl.do('add / %s 8' % hexs(b'l'))
+            for j in range(40):
+                impl.do('set_int_elem /1 -1 %d' % j)
+        # quick: scientific notation on and off (other bits random) x every precision class; thorough: all 64 words.
+        # The tree is rebuilt for every variant: a round trip at a low precision coarsens the floats.
+        combos = range(64) if ctx['tier'] == 'thorough' else [0x20 | rng.below(64), rng.below(64) & ~0x20]
         for o in combos:
-            impl.do('set_options %d' % o)
-            for prec in ((0, 1, 6, 15) if ctx['tier'] == 'thorough' else (rng.choice([0, 1, 6, 15]),)):
+            for prec in (0, 1, 2, 6, 15):
+                build()
+                impl.do('set_options %d' % o)
                 impl.do('set_float_precision %d' % prec)
                 impl.do('set_default_format %d' % rng.below(2))
                 impl.do('set_tab_width %d' % rng.choice([0, 2, 15, 16]))
                 roundtrip_ops(impl, rng, stats, rec)
-                # re-reading replaced the tree with an equivalent one: floats now hold the rendered values
     correspondence(ctx, [fn3], props.proj_full, make_oracle(rec, known_hits), 'C01 write/read round trip', 'value-pools')
     # the known finding: reproduce it deliberately so that it is reported while it exists
     rec = []
